@@ -51,9 +51,11 @@ Viol(r, devs) ==
           [at |-> i, prop |-> p, expected |-> Cached(st, p), got |-> evs[i].cached[p]])
         : p \in {q \in DOMAIN evs[i].cached : evs[i].cached[q] # Cached(st, q)}}
      : i \in Pos(evs, "obs")}
-  \* the value PropertyChanged::get returned is the one the service sent
+  \* the value PropertyChanged::get returned is the one the service sent, or the latest value received meanwhile
   \cup {V("fetched-value", [at |-> i, got |-> evs[i].val])
-        : i \in {j \in Pos(evs, "fetched") : ~\E k \in 1..j : evs[k].k = "getreply" /\ evs[k].val = evs[j].val}}
+        : i \in {j \in Pos(evs, "fetched") :
+                   /\ ~\E k \in 1..j : evs[k].k = "getreply" /\ evs[k].val = evs[j].val
+                   /\ ~\E k \in 1..j : evs[k].k = "fetch" /\ Cached(PC!FoldD(evs, j, devs), evs[k].prop) = evs[j].val}}
   \* get_property: the cached value, else the live value fetched from the service
   \cup (IF ~r.ready THEN {} ELSE
         {V("get-property", [prop |-> p, expected |-> Want(p), got |-> r.gets[p]]) : p \in {q \in DOMAIN r.gets : r.gets[q].val # Want(q)}})
